@@ -41,6 +41,11 @@ impl Lint for ShadowingLint {
         for (_, variable) in &ast_context.scope_manager.variables {
             if let Some(shadow_id) = variable.shadowed {
                 let shadow = &ast_context.scope_manager.variables[shadow_id];
+
+                // Assigning a global earlier in the file does not declare anything that could be shadowed
+                if shadow.is_global {
+                    continue;
+                }
                 let definition = shadow.identifiers[0];
 
                 let name = variable.name.to_owned();
